@@ -30,7 +30,27 @@ package mqttproxy
 // recursive matcher over '/'-separated levels; validity = '#' only as a whole
 // last level, '+' only as a whole level.
 //
+// Connection life cycle (still no sockets): a client task's connection is made
+// the way Broker.handleConn makes it (newClient, Broker.setSession,
+// Session.updateEGName, TopicManager.subscribe(session.allSubscribes())), with
+// cleanSession=true or false; sessions are persisted by the real
+// SessionManager.doStore into the mock storage and come back through
+// SessionManager.get/newSessionFromYaml. A disconnect is the teardown of
+// readLoop's deferred cleanup (closeAndDelSession + Broker.removeClient),
+// optionally preceded by a broker-initiated Client.close() (what a take-over,
+// an admin session deletion or a pipeline Disconnect do first). Reference: a
+// cleanSession=false connection that finds a stored cleanSession=false session
+// holds that session's subscriptions again, each with the QoS of its last
+// subscribe; every other connection starts empty and discards what was stored.
+// Not generated: a second connection for an id that is still connected
+// (take-over interleavings are C16's), and two session snapshots without the
+// task parking in between (their asynchronous persistence order is C16's).
+//
 // Oracle decisions (statement silent / two readings):
+//   * while a client with a cleanSession=false session is away it is NOT in
+//     the routing set (the statement counts disconnect among the removals and
+//     speaks of "live" subscriptions; its subscriptions are live again from
+//     the reconnect on).
 //   * empty filter, empty topic name, '$'-topics, topic names containing
 //     wildcard characters: never generated, skipped if present in a scenario.
 //   * QoS: when several subscriptions of one client match, any of their QoS
@@ -394,13 +414,13 @@ type c14Ref struct {
 	// session is a cleanSession=false one; stored = the subscriptions such a
 	// session holds while its client is away (filter -> QoS of the last subscribe)
 	persist map[string]bool
-	stored  map[string]map[string]byte
+	stored  map[string]map[string]map[byte]bool
 	requal  map[string]map[string]bool // filter was re-subscribed with another QoS since it was first taken
 }
 
 func c14NewRef() *c14Ref {
 	return &c14Ref{subs: map[string]map[string]*c14Ent{}, zomb: map[string]map[string]*c14Zombie{}, removed: map[string]map[string]bool{},
-		persist: map[string]bool{}, stored: map[string]map[string]byte{}, requal: map[string]map[string]bool{}}
+		persist: map[string]bool{}, stored: map[string]map[string]map[byte]bool{}, requal: map[string]map[string]bool{}}
 }
 
 // connect: a cleanSession=false connection finding a stored cleanSession=false
@@ -417,7 +437,11 @@ func (m *c14Ref) connect(id string, persist bool) (restored, requalified int, di
 		return
 	}
 	for _, f := range c14Keys(st) {
-		m.subs[id][f] = &c14Ent{qos: map[byte]bool{st[f]: true}, definite: true}
+		e := &c14Ent{qos: map[byte]bool{}, definite: true}
+		for q := range st[f] {
+			e.qos[q] = true
+		}
+		m.subs[id][f] = e
 		delete(m.zomb[id], f)
 		restored++
 		if m.requal[id][f] {
@@ -505,15 +529,17 @@ func (m *c14Ref) zombify(id, f, kind string) {
 func (m *c14Ref) disconnect(id string, left func(f string) bool) (had int) {
 	m.client(id)
 	if m.persist[id] {
-		m.stored[id] = map[string]byte{}
+		m.stored[id] = map[string]map[byte]bool{}
 	}
 	for _, f := range c14Keys(m.subs[id]) {
 		e := m.subs[id][f]
 		if e.definite {
 			had++
 			if m.persist[id] {
-				for q := range e.qos { // a definite entry has exactly one QoS: that of the last subscribe
-					m.stored[id][f] = q
+				// one QoS, that of the last subscribe (several only after a refused mixed list, see header)
+				m.stored[id][f] = map[byte]bool{}
+				for q := range e.qos {
+					m.stored[id][f][q] = true
 				}
 			}
 		}
@@ -1013,6 +1039,12 @@ func c14Exec(r *sim.Run, sci interface{}) {
 		hist = append(hist, c14Rec{id, "conn(" + mode + ")", inv, ret, fmt.Sprintf("restored %d", restored)})
 		r.Eventf("%s conn %s -> restored %d (%d,%d)", id, mode, restored, inv, ret)
 		afterMutation(id)
+		// Session.store hands every snapshot to its own goroutine; two snapshots
+		// taken without the task parking in between (CONNECT's updateEGName and the
+		// SUBSCRIBE right behind it) can reach the storage in either order. That
+		// race belongs to the session properties (C16), not to routing: park here
+		// so that the connect's snapshot is persisted before the next one is taken.
+		r.Sleep(0)
 		if fatal {
 			return nil
 		}
@@ -1389,18 +1421,20 @@ func TestVerifC14(t *testing.T) {
 		New:      func() interface{} { return &c14Scenario{} },
 		Exec:     c14Exec,
 		MaxSteps: 20000,
-		Rule: "scenario = LRU size from {1,2,4,64} + 2-5 client tasks (subscribe/unsubscribe lists, re-subscribe with other QoS, unsubscribe of filters not held, malformed filters, disconnect+reconnect) and 1-2 publisher tasks over filters/topics of <=4-5 levels from {a,b,ab,'',+,#}, <=60 operations; " +
+		Rule: "scenario = LRU size from {1,2,4,64} + 2-5 client tasks (subscribe/unsubscribe lists, re-subscribe with other QoS, unsubscribe of filters not held, malformed filters, disconnect by plain teardown or after a broker-initiated close, reconnect with cleanSession true/false incl. restore of the stored session's subscriptions) and 1-2 publisher tasks over filters/topics of <=4-5 levels from {a,b,ab,'',+,#}, <=60 operations; " +
 			"non-trivial = some publish was routed through a wildcard filter and some publish happened after a live subscription had been removed; distinct = distinct (cache size, linearised operation history with results) signatures",
 		Real: []string{"pkg/object/mqttproxy/topic.go (TopicManager: subscribe, unsubscribe, findSubscribers, insert, remove, splitTopic, level LRU)",
 			"pkg/object/mqttproxy/client.go (processSubscribe, processUnsubscribe, Client.closeAndDelSession, close)",
-			"pkg/object/mqttproxy/session.go + session_manager.go (Session.subscribe/unsubscribe/allSubscribes, SessionManager.delLocal/delDB), storage.go mockStorage"},
-		Stub: []string{"no sockets: the harness builds Client/Session per connection and calls the packet handlers directly (no readLoop/writeLoop, no resend ticker, no pipelines)",
+			"pkg/object/mqttproxy/session.go + session_manager.go (Session.subscribe/unsubscribe/allSubscribes/updateEGName/store, SessionManager.newSessionFromConn/newSessionFromYaml/get/doStore/delLocal/delDB), Broker.setSession/removeClient, storage.go mockStorage"},
+		Stub: []string{"no sockets: the harness performs handleConn's connection steps and readLoop's teardown steps with the real functions and calls the packet handlers directly (no readLoop/writeLoop, no pipelines)",
 			"TopicManager's sync.RWMutex -> simsync.RWMutex (same semantics + gate at acquisition)",
-			"SessionManager.storeCh is a buffered channel nobody drains (session persistence is outside the property)"},
+			"storage = the repo's mockStorage"},
 		Assumptions: []string{
 			"each operation is atomic between the acquisition of the topic manager's lock and its return (no other gate inside), so the order of the harness's records is the linearisation order; invoke/return stamps are recorded for a later porcupine check",
 			"not generated: empty filter, empty topic name, '$' topics, topic names containing '+' or '#'",
 			"when several subscriptions of a client match, the QoS of any of them is accepted",
+			"a client with a cleanSession=false session is not in the routing set while it is away; after its cleanSession=false reconnect it holds the stored subscriptions with the QoS of the last subscribe of each filter",
+			"not generated: take-over of a still connected id, and two session snapshots without a scheduling point in between (asynchronous persistence order; both belong to C16)",
 			"a refused SUBSCRIBE list mixing valid and malformed filters may or may not install its valid filters while the client is connected; after disconnect nothing may remain (C14.partial-subscribe-residue otherwise)",
 			"an acknowledged UNSUBSCRIBE list mixing valid and malformed filters must have removed its valid filters (C14.partial-unsubscribe-residue otherwise); unacknowledged: both outcomes accepted",
 			"SUBACK return code values are not compared",
